@@ -62,6 +62,16 @@ class C19Model(QsModel):
                           "snap": copy.deepcopy(self.snapshot(j)) if j is not None else None})
 
 
+    def on_resp(self, conn, rpc, args, payload, now):
+        # What the queue answers to a status poll is judged by C19's own oracle (reported
+        # state vs the job's real state in the model), not by C17's snapshot rules - a queue
+        # that misreports a job must show up as an unfaithful status, not end the run early.
+        if conn in self.polls:
+            self.expect.pop(conn, None)
+            return
+        QsModel.on_resp(self, conn, rpc, args, payload, now)
+
+
 class InProcClient:
     """rpc_client for qs.rpcclient.ServerProxy: JSON-encodes the call, parks the calling
     greenlet until the scheduler releases the request and the server answered."""
